@@ -528,3 +528,9 @@ def _listing_rules(ctx, mpq):
     from .c01 import key_from_final_flags_rule, key_size_operand_rule
     key_from_final_flags_rule(ctx, mpq, "C07")
     key_size_operand_rule(ctx, mpq, "C07")
+    # ... through codecs and cipher wrappers that undo each other on every block the rebuild can produce: the store-raw decision
+    # (a block exactly as long as its source is raw to every reader) and the wrappers' early-return classes (shared with C03 / C04)
+    from .c03 import never_expands_rule
+    never_expands_rule(ctx, mpq, "C07")
+    from .c04 import wrapper_guards_rule
+    wrapper_guards_rule(ctx, mpq, "C07")
